@@ -102,7 +102,10 @@ def rule_v0_entry(run, F, cfg):
         c = dominating_conditions(f, calls[0][0])
         magic = any(re.match(r"^core::slice::starts_with\(arg:serialized, data_format::ADBLOCK_RUST_DAT_MAGIC\)$", k) and v == 1 for k, v in c.items())
         present = any(re.match(r"^discr\(core::slice::get\(arg:serialized, core::slice::len\(data_format::ADBLOCK_RUST_DAT_MAGIC\)\)\)$", k) and v == 1 for k, v in c.items())
-        zero = any(re.match(r"^core::slice::get\(arg:serialized, core::slice::len\(data_format::ADBLOCK_RUST_DAT_MAGIC\)\)@Some\.0$", k) and v == 0 for k, v in c.items())
+        BYTE = r"core::slice::get\(arg:serialized, core::slice::len\(data_format::ADBLOCK_RUST_DAT_MAGIC\)\)@Some\.0"
+        # `match version { 0 => .. }`, `if version != 0 { return }`, `if version == 0 { .. }`
+        zero = any((re.match(r"^" + BYTE + r"$", k) and v == 0) or (re.match(r"^\(" + BYTE + r" Ne 0\)$", k) and v == 0)
+                   or (re.match(r"^\(" + BYTE + r" Eq 0\)$", k) and v == 1) for k, v in c.items())
         arg_ok = f.expr_operand(calls[0][1]["args"][0]) == "arg:serialized"
         ok = magic and present and zero and arg_ok
         why = str({k[:90]: v for k, v in c.items()})
